@@ -217,6 +217,32 @@ fn faults_of(seed: &[bool]) -> Vec<Input> {
             }
         }
     }
+    // the extreme 8-octet numbers in both "length + octets" spellings (with and without the leading
+    // ">= 64" bit of a normally small number) at every bit offset, replacing the tail and inserted before it:
+    // every site that reads an unbounded number meets u64::MAX, i64::MAX and i64::MIN
+    let octets = |first: u8, rest: u8| -> Vec<bool> {
+        let mut v = vec![];
+        for b in std::iter::once(8u8).chain(std::iter::once(first)).chain(std::iter::repeat(rest).take(7)) {
+            for k in 0..8 {
+                v.push(b & (0x80 >> k) != 0);
+            }
+        }
+        v
+    };
+    let pats: Vec<(&str, Vec<bool>)> = vec![("u64::MAX", octets(0xFF, 0xFF)), ("i64::MAX", octets(0x7F, 0xFF)), ("i64::MIN", octets(0x80, 0x00))];
+    for i in 0..=n {
+        for (name, p) in &pats {
+            for lead in [false, true] {
+                let mut pat = if lead { vec![true] } else { vec![] };
+                pat.extend_from_slice(p);
+                let mut b = seed[..i].to_vec();
+                b.extend_from_slice(&pat);
+                out.push(Input { bits: b.clone(), how: format!("replace the tail from bit {i} by {}8 octets {name}", if lead { "'1' + " } else { "" }) });
+                b.extend_from_slice(&seed[i..]);
+                out.push(Input { bits: b, how: format!("insert {}8 octets {name} at bit {i}", if lead { "'1' + " } else { "" }) });
+            }
+        }
+    }
     out
 }
 
